@@ -58,6 +58,52 @@ template <typename... ArgTypes> inline void ___print___(ArgTypes... args) {
     std::exit(EXIT_FAILURE);                                                   \
   } while (0)
 
+#ifdef CRAB_VERIF
+/* Verification hook (off by default): CRAB_ERROR throws instead of
+   terminating the process so that a monitor can classify the error
+   and continue with the next case. */
+struct verif_error {
+  std::string msg;
+  const char *file;
+  int line;
+};
+template <typename... ArgTypes>
+inline std::string ___format___(ArgTypes... args) {
+  crab::crab_string_os os;
+  using expand_variadic_pack = int[];
+  (void)expand_variadic_pack{0, ((os << args), void(), 0)...};
+  return os.str();
+}
+#undef CRAB_ERROR
+#define CRAB_ERROR(...)                                                        \
+  do {                                                                         \
+    throw crab::verif_error{crab::___format___(__VA_ARGS__), __FILE__,         \
+                            __LINE__};                                         \
+  } while (0)
+#endif /* CRAB_VERIF */
+
+#ifdef CRAB_VERIF
+/* Verification hook (off by default): logical-step counter of the
+   fixpoint engines. The monitor installs a callback that may throw
+   once a step budget is exceeded. */
+namespace verif {
+typedef void (*tick_fn_t)(const char *kind, unsigned iteration);
+inline tick_fn_t &tick_hook() {
+  static tick_fn_t f = nullptr;
+  return f;
+}
+inline void tick(const char *kind, unsigned iteration) {
+  if (tick_hook())
+    tick_hook()(kind, iteration);
+}
+} // namespace verif
+#define CRAB_VERIF_TICK(KIND, ITER) ::crab::verif::tick(KIND, ITER)
+#else
+#define CRAB_VERIF_TICK(KIND, ITER)                                            \
+  do {                                                                         \
+  } while (0)
+#endif
+
 extern bool CrabWarningFlag;
 void CrabEnableWarningMsg(bool b);
 
